@@ -79,6 +79,8 @@ def run(chk):
     chk.rule("C16.E13", "names in [Potential-Form] that the expression library refuses (a parameter or form named like another form, "
                         "an exprtk constant or built-in) give configuration errors; clash-free definitions are accepted", 5)
     chk.rule("C16.E14", "no assert statement guards user input on the configuration path (AssertionError is an internal exception)", 1)
+    chk.rule("C16.E15", "no except handler on the configuration path swallows the error (body empty apart from pass / logging)", 25)
+    chk.attempt("E15", lambda: no_swallowing(chk, P))
     chk.attempt("E13", lambda: name_clashes(chk, P))
     chk.attempt("E14", lambda: no_asserts(chk, P))
     chk.attempt("E12", lambda: unknown_names(chk, P))
@@ -796,3 +798,31 @@ def no_asserts(chk, P):
                key="C16.E14|%s|%s" % (fi.fq, ast.unparse(node.test)[:40]))
     chk.ob("C16.E14", "%d functions on the configuration path contain no assert statement" % nfun, not bad, site="atsim/potentials/config",
            found=len(bad) or None, expect=0, key="C16.E14|summary")
+
+
+def no_swallowing(chk, P):
+    """an error caught on the configuration path is re-raised (as a configuration error: E8), answered with a fallback value,
+    or ends the program - never dropped, because what the try block was computing is then missing further on"""
+    mods = [m for m in P.modules.values() if m.name.startswith("atsim.potentials.config") or m.name == MODS
+            or m.name.startswith("atsim.potentials.tools.potable")]
+    for fi in P.all_functions():
+        if fi.module not in mods:
+            continue
+        for node in ast.walk(fi.node):
+            if not isinstance(node, ast.ExceptHandler) or _owner(fi.node, node) is not fi.node:
+                continue
+            eff = []
+            for st in node.body:
+                if isinstance(st, ast.Pass):
+                    continue
+                if isinstance(st, ast.Expr) and isinstance(st.value, ast.Constant):
+                    continue
+                if isinstance(st, ast.Expr) and isinstance(st.value, ast.Call) and isinstance(st.value.func, ast.Attribute) \
+                        and st.value.func.attr in ("debug", "info", "warning", "warn", "error", "exception", "critical") \
+                        and "log" in ast.unparse(st.value.func.value).lower():
+                    continue
+                eff.append(st)
+            what = ast.unparse(node.type) if node.type is not None else "everything"
+            chk.ob("C16.E15", "%s: the handler for %s does something with the error" % (fi.qualname, what), bool(eff), site=fi.site(node),
+                   found="handler body is only pass / logging" if not eff else None, expect="raise / return / fallback value",
+                   key="C16.E15|%s|%s" % (fi.fq, what))
